@@ -64,6 +64,7 @@ func periodTuple(what string, d klog.Date, get func() period.Period, panics *[]a
 
 func hCalYear(c M) M {
 	y := num(c, "year")
+	// the time zone of the process is part of the environment of the case (field "tz", see runCase)
 	wd := make([]byte, 0, 366)
 	var week, weekPrev, month, monthPrev, quarter, quarterPrev, year, yearPrev rle
 	panics := []any{}
